@@ -223,6 +223,8 @@ package dns
 //@ func slurpRemainder [C07 C06]
 //@   requires c != nil
 // an error names the offending token and its position
+// only something other than the end of the line (or of the input) after the RDATA, and an optional blank, is garbage
+//@   exit garbage: ret0 != nil ==> l.value != 4 && l.value != 0 [C06 C07]
 //@   exit tok: ret0 != nil ==> same(ret0.lex.token, l.token) && ret0.lex.line == l.line && ret0.lex.column == l.column
 //@   requires lexinv: (c.l.value == 1 ==> len(c.l.token) > 0) && (c.cachedL != nil ==> (c.cachedL.value == 1 ==> len(c.cachedL.token) > 0))
 //@   loop * invariant (c.l.value == 1 ==> len(c.l.token) > 0) && (c.cachedL != nil ==> (c.cachedL.value == 1 ==> len(c.cachedL.token) > 0))
